@@ -2,6 +2,7 @@ package main
 
 import (
 	"bufio"
+	"bytes"
 	"errors"
 	"fmt"
 	"io"
@@ -18,6 +19,15 @@ import (
 const (
 	flushCommandBatch  = 8
 	flushBufferedBytes = 2048
+
+	// Limits on client-declared RESP lengths (same values as redis-server:
+	// 1M multibulk elements, proto-max-bulk-len 512MB).
+	maxMultiBulkLen = 1024 * 1024
+	maxBulkLen      = 512 << 20
+	// Declared lengths are never trusted for allocation beyond these sizes;
+	// larger payloads grow with the bytes that actually arrive.
+	multiBulkPrealloc = 64
+	bulkPrealloc      = 4096
 )
 
 var (
@@ -436,7 +446,10 @@ func parseRESP(r *bufio.Reader) ([][]byte, error) {
 		if n < 0 {
 			return nil, nil
 		}
-		out := make([][]byte, 0, n)
+		if n > maxMultiBulkLen {
+			return nil, fmt.Errorf("invalid multibulk length %q", line)
+		}
+		out := make([][]byte, 0, min(n, multiBulkPrealloc))
 		for range n {
 			b, err := r.ReadByte()
 			if err != nil {
@@ -457,8 +470,11 @@ func parseRESP(r *bufio.Reader) ([][]byte, error) {
 				out = append(out, nil)
 				continue
 			}
-			buf := make([]byte, l)
-			if _, err := io.ReadFull(r, buf); err != nil {
+			if l > maxBulkLen {
+				return nil, fmt.Errorf("invalid bulk length %q", line)
+			}
+			buf, err := readBulk(r, l)
+			if err != nil {
 				return nil, err
 			}
 			if err := expectCRLF(r); err != nil {
@@ -485,6 +501,27 @@ func parseRESP(r *bufio.Reader) ([][]byte, error) {
 		}
 		return out, nil
 	}
+}
+
+// readBulk reads exactly l payload bytes. Memory is allocated in proportion to
+// the bytes received, not to the declared length.
+func readBulk(r *bufio.Reader, l int) ([]byte, error) {
+	if l <= bulkPrealloc {
+		buf := make([]byte, l)
+		if _, err := io.ReadFull(r, buf); err != nil {
+			return nil, err
+		}
+		return buf, nil
+	}
+	var bb bytes.Buffer
+	n, err := io.CopyN(&bb, r, int64(l))
+	if err != nil {
+		if errors.Is(err, io.EOF) && n > 0 {
+			err = io.ErrUnexpectedEOF
+		}
+		return nil, err
+	}
+	return bb.Bytes(), nil
 }
 
 func readLine(r *bufio.Reader) (string, error) {
